@@ -20,8 +20,8 @@ theorem RunOK.job_step {cfg : Cfg} {s : St} {d d' : Disk} (h : RunOK cfg s d)
       Holds (curManifest d) fun mf => Holds (viewAt cfg mf 0) fun v0 => v0.jn ≤ v0'.jn) :
     RunOK cfg (s.upd j' nf' l' a' b' m' o') d' := by
   obtain ⟨r1, r2, r3, r4, r5, r6, r7, r8, r9⟩ := h
-  refine ⟨r1, hmfd, by rw [hj]; exact r3, by rw [hj]; exact r4,
-    ⟨by rw [hj]; exact fun p hp => Nat.lt_of_lt_of_le (r5.1 p hp) hnf, hcur⟩, r6, ?_, ?_, fun hc => by cases hc⟩
+  refine ⟨r1, hmfd, by rw [hj]; exact r3, by rw [hj]; exact ⟨Nat.lt_of_lt_of_le r4.1 hnf, r4.2⟩,
+    ⟨by rw [hj]; exact nums_le r5.1 hnf, hcur⟩, r6, ?_, ?_, fun hc => by cases hc⟩
   · rcases frozenOK_iff.1 r7 with ⟨h1, h2⟩ | ⟨fz, jf, h1, h2, f1, f2, f3, f4, f5, f6⟩
     · exact frozenOK_iff.2 (Or.inl ⟨h1, h2⟩)
     · refine frozenOK_iff.2 (Or.inr ⟨fz, jf, h1, h2, f1, f2, f3, by rw [hj]; exact f4, by rw [hj]; exact f5, ?_⟩)
@@ -69,7 +69,10 @@ theorem RecOK.job_step {cfg : Cfg} {s : St} {d d' : Disk} {r : Recov} (h : RecOK
       simp only at r7
       refine ⟨by rw [hj]; exact r7.1, r7.2.1, fun hn => ?_⟩
       rw [hj]
-      exact r7.2.2 (hnc hn).1
+      have hbc : j'.pc.beforeCommit = true := hn
+      obtain ⟨hn', _, _, _, hb, _⟩ := hnc hbc
+      have := r7.2.2 hn'
+      exact ⟨this.1, by rw [hb]; exact this.2⟩
     · rename_i ho; rw [ho] at r7; exact r7
   · intro hn
     have hbc : j'.pc.beforeCommit = true := hn
